@@ -25,6 +25,7 @@ Verdict0(e, i) ==
       [] e.e = "OvConvF" -> JudgeOvConvF(e, i)
       [] e.e = "ScBin" -> JudgeScBin(e, i)
       [] e.e = "ScUn" -> JudgeScUn(e, i)
+      [] e.e = "ScAssign" -> JudgeScAssign(e, i)
       [] e.e = "ScCmp" -> JudgeScCmp(e, i)
       [] e.e = "ScIdent" -> JudgeScIdent(e, i)
       [] e.e = "ScQuot" -> JudgeScQuot(e, i)
